@@ -122,6 +122,11 @@ def check_functions(model: Model, report: Report) -> None:
                         continue
                     if checks[0][2][0] is not p:
                         probs["check-other-arg"] = ("R11.3", "the I-Regexp validity check is applied to something else than the pattern argument")
+                    if valid == "UnicodeEncodeError":
+                        # the checker could not even encode the pattern (a lone surrogate): not an I-Regexp; handled
+                        if res is not False or calls:
+                            probs["unencodable-pattern"] = ("R11.3", f"{mod}() {'calls the engine' if calls else 'returns ' + str(res)} for a pattern the validity check cannot encode (a lone surrogate), expected false")
+                        continue
                     if valid is False:
                         if res is not False or calls:
                             probs["invalid-pattern"] = ("R11.3", f"{mod}() {'calls the engine' if calls else 'returns ' + str(res)} for a pattern that is not a valid I-Regexp, expected false without evaluation")
